@@ -158,6 +158,17 @@ CHECKS = {
    note='Trusted: z3, cyx transliteration (signed casts kept), entry-function contract (C01), sequentialised thread pool / prange, symsparse BSR/COO models. Spaces are concrete and enumerated; '
         'entries and index pairs are symbolic. Real threads/OpenMP are outside the claim. Configurations rejected by an explicit "not implemented" assertion (1D symmetric) are counted, not failures.',
    technique='symbolic execution of real Python source + transliterated Cython with z3; write-set disjointness for schedule independence'),
+ 'C05': dict(
+   category='other', design_ref='4/C05',
+   text='(A) Bounded symbolic verification of bspline.knot_insertion: the whole open knot vector (coincident knots allowed), the inserted knot (anywhere strictly inside, also on existing '
+        'knots) and the evaluation point are solver variables; z3 proves on every polynomial piece of the refined vector that each old basis function equals the combination of the new '
+        'ones given by the columns of the returned matrix, and that rows sum to one (degree <= 3 quick / 5 thorough). (B) Hybrid: the real HSpace.prolongate_to (every prefix of a history '
+        'to the full history, acting on HB coefficients), HSpace.boundary (all faces, different knot vectors per direction), thb_to_hb/hb_to_thb run on enumerated refinement histories; '
+        'for a symbolic coefficient vector z3 decides that the function, expressed in the finest-level tensor-product basis, is preserved.',
+   note='Trusted: z3, Cox-de Boor piece oracle (own code), ratnorm division clearing, represent_fine/HMesh.P/bspline.prolongation of the real code as the reference representation in (B) '
+        '(entries replaced by the dyadic rational within 1e-12). In (B) the history quantifier is by ENUMERATION, the solver only quantifies over the coefficient vector (linear identities). '
+        'Not applicable: bspline.prolongation itself (numeric collocation solve), virtual_hierarchy_prolongators, HSplineFunc evaluation routes.',
+   technique='symbolic execution of real Python source + z3 (rational-function identities per polynomial piece; LRA for the hybrid part)'),
 }
 
 NA = {
